@@ -1,5 +1,6 @@
 import DirectVerif.Driver.Common
 import DirectVerif.Model.Crop
+import DirectVerif.Model.C10Modules
 namespace DirectVerif.Driver.C10
 open DirectVerif DirectVerif.Driver
 
@@ -84,6 +85,101 @@ def opRandomCrop (t : Tensor Int) (crop : List Int) (offset : Nat) (lower : List
     if offset ≤ ax ∧ ax < offset + crop.length then shape.getD (ax - offset) 0 else img.getD ax 0
   opBbox t (starts ++ sizes) 0
 
+/-! ### the k-space modules: the plan of `Model/Crop.lean` interpreted on tensors, with the key plumbing of
+`Model/C10Modules.lean`.  The operator pair is the exact involution `flip(dim)` (passed to the real transforms as
+`forward_operator` / `backward_operator`), so model and implementation are compared bit for bit. -/
+
+abbrev R := Except String (Tensor Int)
+
+def resultStr : R → String
+  | .ok t => okT t
+  | .error e => e
+
+/-- an op of the protocol as a tensor-valued function -/
+def asR (f : Tensor Int → String) (g : Tensor Int → Tensor Int) (t : Tensor Int) : R :=
+  let s := f t
+  if s.startsWith "err" then .error s else .ok (g t)
+
+open DirectVerif.Crop (flipAxes spatialDims)
+
+/-- tensor result of `crop_to_bbox` (same loop as `opBbox`) -/
+def bboxT (t : Tensor Int) (bbox : List Int) (fill : Int) : Tensor Int := Id.run do
+  let r := t.shape.length
+  let mut cur := t
+  for ax in List.range r do
+    let coord := bbox.getD ax 0
+    let size := bbox.getD (r + ax) 0
+    cur := cur.alongAxis ax fun xs =>
+      match Crop.cropToBbox fill xs coord size with
+      | .ok ys => ys
+      | .shapeError => []
+  return cur
+
+/-- tensor result of `complex_center_crop` -/
+def cccT (t : Tensor Int) (crop : List Int) (offset : Nat) : R :=
+  let r := t.shape.length
+  let img : List Int := t.shape.map Int.ofNat
+  let shape : List Int := (List.range crop.length).map fun idx =>
+    let c := crop.getD idx 0
+    if c ≠ 0 then c else img.getD (idx + offset) 0
+  let starts : List Int := (List.range r).map fun ax =>
+    if offset ≤ ax ∧ ax < offset + crop.length then
+      Crop.cccStart (img.getD ax 0) (shape.getD (ax - offset) 0) else 0
+  let sizes : List Int := (List.range r).map fun ax =>
+    if offset ≤ ax ∧ ax < offset + crop.length then shape.getD (ax - offset) 0 else img.getD ax 0
+  asR (fun t => opCCC t crop offset) (fun t => bboxT t (starts ++ sizes) 0) t
+
+/-- `view_as_real(pad_tensor(view_as_complex(x), target))`: the last `target.length` axes *before* the trailing
+complex axis are padded (the views only regroup the trailing axis of size 2) -/
+def padComplexT (t : Tensor Int) (target : List Int) (fill : Int) : R := Id.run do
+  let r := t.shape.length
+  let k := target.length
+  if k ≠ 2 ∧ k ≠ 3 then return .error "err ValueError"
+  if r < k + 1 then return .error "err BadOp"
+  let dims : List (Int × Int) := (List.range k).map fun j =>
+    (target.getD j 0, (t.shape.getD (r - 1 - k + j) 0 : Nat))
+  let pad := Crop.padPairs false dims
+  let mut cur := t
+  for j in List.range k do     -- j-th axis from the last, not counting the complex axis
+    let (l, rr) := Crop.padOfAxisFromLast pad j
+    cur := cur.alongAxis (r - 2 - j) (Crop.fPad fill l.toNat rr.toNat)
+  return .ok cur
+
+/-- the operators a plan is run with: flips as forward / backward operator, views as identities -/
+def kops (dims : List Nat) (pad crop : R → R) : Crop.KOps R :=
+  { fwd := fun x => x.map (flipAxes dims), bwd := fun x => x.map (flipAxes dims), vc := id, vr := id, pad := pad, crop := crop }
+
+/-- `CropKspace(crop, image_space_center_crop=True)`: resolve the crop shape for the argument form, then the plan -/
+def cropKspaceRun (form : Crop.CropForm) (crop keyVal : List Int) (x : R) : R :=
+  match x with
+  | .error e => .error e
+  | .ok t =>
+    let shape := Crop.cropShapeResolve form t.shape.length crop keyVal (t.shape.getD 1 0)
+    Crop.runPlan (kops (spatialDims t.shape.length) id (fun y => y.bind fun u => cccT u shape 1)) Crop.cropKspacePlan (.ok t)
+
+/-- `PadKspace(pad_shape)` on the tensor it read -/
+def padKspaceRun (target : List Int) (x : R) : R :=
+  match x with
+  | .error e => .error e
+  | .ok t => Crop.runPlan (kops (spatialDims t.shape.length) (fun y => y.bind fun u => padComplexT u target 0) id)
+      Crop.padKspacePlan (.ok t)
+
+def fmtSample (s : Crop.KSample R) : String :=
+  match s.kspace, s.masked with
+  | some (.ok a), some (.ok b) => "ok " ++ fmtGroups [a.shape.map Int.ofNat, a.data, b.shape.map Int.ofNat, b.data]
+  | some (.error e), _ => e
+  | _, some (.error e) => e
+  | _, _ => "err KeyError"
+
+/-- a k-space module applied to a sample holding both k-space keys; answer = both tensors afterwards -/
+def opModule (io : Crop.KIO) (cfg : Crop.KKey) (f : R → R) (tk tm : Tensor Int) : String :=
+  match Crop.moduleCall io cfg f ⟨some (.ok tk), some (.ok tm)⟩ with
+  | some s => fmtSample s
+  | none => "err KeyError"
+
+def keyOfCode (c : Int) : Crop.KKey := if c = 1 then .masked else .kspace
+def formOfCode (c : Int) : Crop.CropForm := if c = 0 then .intString else if c = 1 then .key else .seq
+
 def step (op : String) (gs : List (List Int)) : String :=
   match op, gs with
   | "center_crop", [shape, data, s] =>
@@ -106,6 +202,21 @@ def step (op : String) (gs : List (List Int)) : String :=
     match mkT shape data with
     | some t => opPad t target fill
     | none => "err BadOp"
+  | "largest", [shape, data, mx, [fill]] =>
+    -- one item of `crop_to_largest`: bbox = (crop_start per axis, max_shape)
+    match mkT shape data with
+    | some t =>
+      if mx.length ≠ t.shape.length then "err BadOp" else
+      opBbox t ((List.range mx.length).map (fun ax => Crop.cropToLargestStart (mx.getD ax 0) (t.shape.getD ax 0 : Nat)) ++ mx) fill
+    | none => "err BadOp"
+  | "padk", [[key], shapeK, dataK, shapeM, dataM, target] =>
+    match mkT shapeK dataK, mkT shapeM dataM with
+    | some tk, some tm => opModule Crop.padKspaceIO (keyOfCode key) (padKspaceRun target) tk tm
+    | _, _ => "err BadOp"
+  | "cropk", [[form], shapeK, dataK, shapeM, dataM, crop, keyVal] =>
+    match mkT shapeK dataK, mkT shapeM dataM with
+    | some tk, some tm => opModule Crop.cropKspaceIO .kspace (cropKspaceRun (formOfCode form) crop keyVal) tk tm
+    | _, _ => "err BadOp"
   | _, _ => "err BadOp"
 
 end DirectVerif.Driver.C10
